@@ -287,7 +287,8 @@ func StatEv(st *trie.SlimTrie) (e Ev) {
 			e["pan"] = fmt.Sprint(r)
 		}
 	}()
-	s := st.Stat()
+	var s *trie.Stat
+	watched(func() { s = st.Stat() })
 	lv := [][]int{}
 	for _, l := range s.Levels {
 		lv = append(lv, []int{int(l.Total), int(l.Inner), int(l.Leaf)})
